@@ -27,6 +27,10 @@ func init() {
 		g.callSeq(grp, pk, "Cluster.updateNodeUsageFromPod", "podUsageCalls", []string{"updateNodeUsageFromPodCompletion", "updateForPod", "cleanupOldBindings"})
 		g.callSeq(grp, pk, "Cluster.cleanupNode", "cleanupNodeCalls", []string{"NewNode", "ShallowCopy", "updateNodePoolResources", "MarkUnconsolidated"})
 		g.callSeq(grp, pk, "Cluster.cleanupNodeClaim", "cleanupNodeClaimCalls", []string{"ShallowCopy", "updateNodePoolResources", "MarkUnconsolidated", "Cleanup"})
+		// which pod predicates (pkg/utils/pod) decide, at the two sites that account a pod to its node, whether it still counts
+		g.c11PkgCalls(grp, pk, "Cluster.UpdatePod", "podutils", "updatePodPredicates")
+		g.c11PkgCalls(grp, pk, "Cluster.populateResourceRequests", "podutils", "populatePodPredicates")
+		g.callSeq(grp, pk, "Cluster.UpdatePod", "updatePodCalls", []string{"updateNodeUsageFromPodCompletion", "updateNodeUsageFromPod"})
 		g.callSeq(grp, "pkg/scheduling", "VolumeUsage.Add", "volumeUsageAddCalls", []string{"DeletePod", "Union", "Insert"})
 		g.callSeq(grp, "pkg/scheduling", "VolumeUsage.DeletePod", "volumeUsageDeleteCalls", []string{"Union", "Insert"})
 	})
@@ -204,6 +208,36 @@ func (g *gen) c11ReceiverFieldOps(group, pkgPath, fn, lean string, deletes bool)
 	}
 	fmt.Fprintf(b, "/-- receiver fields `%s.%s` %s (%s) -/\ndef %s : List String := [", pkgPath, fn, what, g.pos(fd.Pos()), lean)
 	for i, s := range fields {
+		if i > 0 {
+			b.WriteString(", ")
+		}
+		b.WriteString(leanStr(s))
+	}
+	b.WriteString("]\n\n")
+}
+
+// c11PkgCalls lists, in source order, the functions of the package imported as `pkgIdent` that the function calls.
+func (g *gen) c11PkgCalls(group, pkgPath, fn, pkgIdent, lean string) {
+	_, fd := g.findFunc(pkgPath, fn)
+	if fd == nil {
+		return
+	}
+	var seq []string
+	ast.Inspect(fd.Body, func(n ast.Node) bool {
+		ce, ok := n.(*ast.CallExpr)
+		if !ok {
+			return true
+		}
+		if se, ok := ce.Fun.(*ast.SelectorExpr); ok {
+			if id, ok := se.X.(*ast.Ident); ok && id.Name == pkgIdent {
+				seq = append(seq, se.Sel.Name)
+			}
+		}
+		return true
+	})
+	b := g.out(group)
+	fmt.Fprintf(b, "/-- the `%s.*` functions called inside `%s.%s`, in source order (%s) -/\ndef %s : List String := [", pkgIdent, pkgPath, fn, g.pos(fd.Pos()), lean)
+	for i, s := range seq {
 		if i > 0 {
 			b.WriteString(", ")
 		}
